@@ -139,6 +139,24 @@ def _focus_sources():
     return _FOCUS
 
 
+FOCUS_BATCH = 24
+
+
+def _focused_batch(run_seed, cfg, case):
+    """One focused run = FOCUS_BATCH consecutive (statement, fault) pairs of the enumeration,
+    each parsed on its own (create() first) in the same run child."""
+    fidx = cfg.get("index", 0) // 3  # every third run is a focused one
+    batch = []
+    for sub in range(FOCUS_BATCH):
+        one = _focused_case(rng.derive_int(run_seed, "sub", sub),
+                            dict(cfg, index=fidx * FOCUS_BATCH + sub), {})
+        batch.append({"std": one["std"], "text": one["files"]["main.f90"],
+                      "mutations": one["mutations"]})
+    case.update({"mode": "focus_batch", "batch": batch, "std": "mixed", "opts": {},
+                 "mutations": []})
+    return case
+
+
 def _focused_case(run_seed, cfg, case):
     """Statement number = run index mod #statements; mutation number = run index div
     #statements, taken from a per-batch-seed shuffle of all (token, op) pairs of that
@@ -165,7 +183,9 @@ def _focused_case(run_seed, cfg, case):
         r2 = rng.derive(run_seed, "focus-second")
         chosen.append(pairs[r2.randrange(len(pairs))])
     new = list(toks)
-    for i, op in sorted(chosen, reverse=True):
+    for i, op in sorted(set(chosen), reverse=True):
+        if i >= len(new):
+            continue
         if op == "delete":
             del new[i]
         elif op == "duplicate":
@@ -188,7 +208,7 @@ def generate(run_seed, cfg):
     st = rng.Streams(run_seed)
     sw = st("swarm")
     if cfg.get("index", 0) % 3 == 2:
-        return _focused_case(run_seed, cfg, {"prop": ID})
+        return _focused_batch(run_seed, cfg, {"prop": ID})
     std = sw.choice(["f2003", "f2008"])
     opts = {"ignore_comments": sw.random() < 0.5}
     if sw.random() < 0.25:
@@ -254,7 +274,10 @@ def generate(run_seed, cfg):
 
 def sample_view(case):
     view = dict(case)
-    view["files"] = {k: v[:600] for k, v in case["files"].items()}
+    if "files" in case:
+        view["files"] = {k: v[:600] for k, v in case["files"].items()}
+    if "batch" in case:
+        view["batch"] = case["batch"][:4]
     return view
 
 
@@ -319,6 +342,8 @@ def execute(case):
 
     mode = case["mode"]
     std = case["std"]
+    if mode == "focus_batch":
+        return _execute_focus_batch(case, stats, events, violations, state_keys, probe, violate)
     image = {k: v.encode("latin-1") for k, v in case["files"].items()}
     # ---- references first, while this child is still pristine
     refs = {}
@@ -449,10 +474,62 @@ def execute(case):
         fs.uninstall()
 
 
+def _execute_focus_batch(case, stats, events, violations, state_keys, probe, violate):
+    host.install_log_counter()
+    clock = host.StepClock().install()
+    try:
+        for sub, one in enumerate(case["batch"]):
+            text = one["text"].encode("latin-1").decode("utf-8", "replace")
+            parser = fp.create(one["std"])
+            clock.start(_budget(text.count("\n") + 1))
+            outcome, _, exc = fp.parse_with(parser, fp.make_reader(
+                "string", text, {"ignore_comments": True}))
+            events.append(["focus", sub, fp.outcome_digest(outcome), clock.count])
+            probe("focused_single_token_fault")
+            detail = {"sub": sub, "text": text, "std": one["std"]}
+            if outcome[0] == "ok":
+                probe("outcome_tree")
+            elif outcome[0] == "syntax":
+                probe("outcome_syntax")
+            elif outcome[0] == "exit":
+                probe("system_exit_trapped")
+                violate("C06.b process-exit", outcome[1], dict(detail, phase="parse"))
+            elif outcome[0] == "budget":
+                violate("C06.d step-budget-exceeded", "string", dict(detail, count=outcome[1]))
+            elif outcome[0] == "printfail":
+                violate("C06.c print-raises", "%s@%s" % (outcome[1], outcome[2]), detail)
+            elif outcome[0] == "escape":
+                violate("C06.a exception-escapes", "%s@%s" % (outcome[1], outcome[2]),
+                        dict(detail, message=str(exc)[:200]))
+            state_keys.add(("focus", outcome[0],
+                            outcome[-1] if outcome[0] in ("syntax", "escape") else ""))
+        stats["logical"]["ops"] = len(case["batch"])
+        return {"events": events, "violations": violations, "stats": stats, "nontrivial": True,
+                "state_keys": [list(map(str, k)) for k in sorted(state_keys, key=str)],
+                "discarded": None}
+    finally:
+        clock.uninstall()
+
+
 # --------------------------------------------------------------------------- shrinking
 def shrink_candidates(case):
     import copy
 
+    if case["mode"] == "focus_batch":
+        if len(case["batch"]) > 1:
+            for k in range(len(case["batch"])):
+                c = copy.deepcopy(case)
+                c["batch"] = [case["batch"][k]]
+                yield c
+        else:
+            # hand over to the ordinary single-file shrinker
+            one = case["batch"][0]
+            c = {"prop": ID, "std": one["std"], "opts": {"ignore_comments": True},
+                 "mode": "parse", "reader": "string", "files": {"main.f90": one["text"]},
+                 "faults": {}, "mutations": [{"kind": "shrunk"}],
+                 "run_seed": case.get("run_seed")}
+            yield c
+        return
     if case["mode"] == "cli":
         if len(case["order"]) > 1:
             for k in range(len(case["order"])):
